@@ -37,8 +37,12 @@ class Ty:
             return self.gotext
         if k in INTS or k in FLOATS or k in ("bool", "string"):
             return k
-        if k == "bytes":
+        if k == "bytes" or k == "lbytes":
             return "[]byte"
+        if k == "lstring":
+            return "string"
+        if k == "bslice":
+            return "[]int64"
         if k == "fixed":
             return "[%d]byte" % self.n
         if k == "ptr":
@@ -232,6 +236,12 @@ def natural(t, omit=False):
         s = Sd("double")
     elif k in ("string", "bytes"):
         s = Sd(k)
+    elif k == "lstring":
+        s = Sd("string")
+    elif k == "lbytes":
+        s = Sd("bytes")
+    elif k == "bslice":
+        s = Sd("array", items=Sd("long"))
     elif k == "slice":
         s = Sd("array", items=natural(t.elem))
     elif k == "map":
@@ -316,16 +326,22 @@ class Gen:
             body.append("*p = verifString(tag, verifChoice(tag+\".len\", verifMaxStr()+1))")
         elif k == "bytes":
             body.append("n := verifChoice(tag+\".len\", verifMaxStr()+1)\n\tif n == 0 && verifChoice(tag+\".nil\", 2) == 1 {\n\t\t*p = nil\n\t\treturn\n\t}\n\t*p = verifBytes(tag, n)")
+        elif k == "lstring":
+            body.append("*p = verifString(tag, verifLongLen(tag))")
+        elif k == "lbytes":
+            body.append("*p = verifBytes(tag, verifLongLen(tag))")
+        elif k == "bslice":
+            body.append("n := verifLongLen(tag)\n\t*p = make([]int64, n)\n\tfor i := 0; i < n; i++ {\n\t\t(*p)[i] = int64(verifNondetU8(tag) & 0x3f)\n\t}")
         elif k == "fixed":
             body.append("copy(p[:], verifBytes(tag, %d))" % t.n)
         elif k == "ptr":
             ef = self.fill(t.elem, nested, False, wide)
             body.append("if verifChoice(tag+\".nil\", 2) == 1 {\n\t\t*p = nil\n\t\treturn\n\t}\n\t*p = new(%s)\n\t%s(*p, tag+\"*\")" % (t.elem.go(), ef))
         elif k == "slice":
-            ef = self.fill(t.elem, True)
+            ef = self.fill(t.elem, True, False, wide)
             body.append("n := verifChoice(tag+\".len\", MAXLEN+1)\n\tif n == 0 {\n\t\tif verifChoice(tag+\".nil\", 2) == 1 {\n\t\t\t*p = nil\n\t\t} else {\n\t\t\t*p = %s{}\n\t\t}\n\t\treturn\n\t}\n\t*p = make(%s, n)\n\tfor i := 0; i < n; i++ {\n\t\t%s(&(*p)[i], tag+\"[\"+string(rune('0'+i))+\"]\")\n\t}" % (t.go(), t.go(), ef))
         elif k == "map":
-            ef = self.fill(t.elem, True)
+            ef = self.fill(t.elem, True, False, wide)
             body.append("n := verifChoice(tag+\".len\", MAXLEN+1)\n\tif n == 0 {\n\t\tif NILONLY || verifChoice(tag+\".nil\", 2) == 1 {\n\t\t\t*p = nil\n\t\t} else {\n\t\t\t*p = %s{}\n\t\t}\n\t\treturn\n\t}\n\t*p = make(%s, n)\n\tvar prev string\n\tfor i := 0; i < n; i++ {\n\t\tk := verifString(tag+\".k\", 1)\n\t\tif i > 0 {\n\t\t\tverifAssume(k != prev)\n\t\t}\n\t\tprev = k\n\t\tvar v %s\n\t\t%s(&v, tag+\"{\"+string(rune('0'+i))+\"}\")\n\t\t(*p)[k] = v\n\t}" % (t.go(), t.go(), t.elem.go(), ef))
         elif k == "struct":
             for f in t.fields:
@@ -365,7 +381,7 @@ class Gen:
             return "!%s" % e
         if k in INTS or k in FLOATS:
             return "%s == 0" % e
-        if k in ("string", "bytes", "slice", "map"):
+        if k in ("string", "bytes", "slice", "map", "lstring", "lbytes", "bslice"):
             return "len(%s) == 0" % e
         return None
 
@@ -421,6 +437,8 @@ class Gen:
             b.append("return refStr([]byte(*p))")
         elif sd.kind == "bytes" and k != "customL":
             b.append("return refStr(*p)")
+        elif sd.kind == "array" and k == "bslice":
+            b.append("d := refDatum{K: 'a'}\n\tfor i := range *p {\n\t\td.Items = append(d.Items, refLong((*p)[i]))\n\t}\n\treturn d")
         elif sd.kind == "fixed" and k == "customS":
             b.append("return refStr(verifMarkBytesS(verifMark, p))")
         elif sd.kind == "fixed" and k == "customI":
@@ -511,10 +529,12 @@ class Gen:
             if omit:
                 e = "verifOr(%s, verifAnd(*in == 0, *out == 0))" % e
             b.append("return " + e)
-        elif wk == "string" and tk == "string":
+        elif wk in ("string", "lstring") and tk == wk:
             b.append("return verifStrEq(*in, *out)")
-        elif wk == "bytes" and tk == "bytes":
+        elif wk in ("bytes", "lbytes") and tk == wk:
             b.append("return refBytesEq(*in, *out)")
+        elif wk == "bslice" and tk == "bslice":
+            b.append("if len(*in) != len(*out) {\n\t\treturn false\n\t}\n\tacc := true\n\tfor i := range *in {\n\t\tacc = verifAnd(acc, (*in)[i] == (*out)[i])\n\t}\n\treturn acc")
         elif wk == "fixed" and tk == "fixed":
             b.append("return *in == *out")
         elif wk in ("customS", "customI") and tk == wk:
@@ -571,7 +591,7 @@ class Gen:
             if k in FLOATS:
                 return "*%s == 0" % e
             return "*%s == %s" % (e, z)
-        if k in ("bytes", "slice", "map"):
+        if k in ("bytes", "slice", "map", "lbytes", "bslice", "lstring"):
             return "len(*%s) == 0" % e
         if k == "ptr":
             return "*%s == nil" % e
@@ -606,10 +626,10 @@ class Gen:
         return name
 
     # ---------- harnesses ----------
-    def harness_rt(self, t, group):
+    def harness_rt(self, t, group, wide=False):
         """C01 + C02 (+ guards for C05) on one type: write a symbolic value,
         reference-decode the bytes, read them back."""
-        fill, rt = self.fill(t), self.rt(t, t)
+        fill, rt = self.fill(t, False, False, wide), self.rt(t, t)
         datum = self.datum_under(natural(t), t)
         self.guards(t)
         self.w("""func verifHarness_C0102_%(group)s_%(n)s() {
@@ -863,6 +883,15 @@ func verifMaxLenInner() int {
 
 func verifMaxStr() int { return 2 }
 
+// lengths around the points where a length / count varint grows a byte
+func verifLongLen(tag string) int {
+	l := []int{63, 64, 65, 130}
+	if verifThorough() {
+		l = append(l, 127, 128, 200)
+	}
+	return l[verifChoice(tag+".len", len(l))]
+}
+
 func verifC06MaxLen() int {
 	if verifThorough() {
 		return 6
@@ -929,6 +958,18 @@ def catalogue_avro(g):
     add("deep", "verifD_OmitPtr", [Field("A", P(B("string")), 'json:"A,omitempty"'), Z()])
     add("deep", "verifD_OmitSlice", [Field("A", S(B("string")), 'json:"A,omitempty"'), Z()])
     add("deep", "verifD_OmitMap", [Field("A", M(B("int64")), 'json:"A,omitempty"'), Z()])
+    add("scale", "verifX_LongString", [Field("A", B("lstring")), Z()])
+    add("scale", "verifX_LongBytes", [Field("A", B("lbytes")), Z()])
+    add("scale", "verifX_LongStringOmit", [Field("A", B("lstring"), 'json:"A,omitempty"'), Z()])
+    add("scale", "verifX_SliceLongString", [Field("A", S(B("lstring"))), Z()])
+    add("scale", "verifX_MapLongBytes", [Field("A", M(B("lbytes"))), Z()])
+    add("scale", "verifX_BigSlice", [Field("A", B("bslice")), Z()])
+    add("scale", "verifX_PtrBigSlice", [Field("A", P(B("bslice"))), Z()])
+    lvl3 = g.struct("verifX_L3", [Field("C", P(S(B("int64")))), Field("N", B("string"), 'json:"n,omitempty"')])
+    lvl2 = g.struct("verifX_L2", [Field("B", M(lvl3)), Field("K", B("int64"))])
+    add("scale", "verifX_Deep", [Field("A", S(lvl2)), Z()])
+    add("scale", "verifX_ManyFields", [Field("F%02d" % i, B(k)) for i, k in enumerate(
+        ["int64", "string", "bool", "int32", "float64", "bytes", "int16", "string", "int64", "float32", "bool", "int"])] + [Field("P", P(B("int64"))), Field("O", B("string"), 'json:"o,omitempty"')])
     add("deep", "verifD_PtrBytes", [Field("A", P(B("bytes"))), Z()])
     add("deep", "verifD_SliceBytes", [Field("A", S(B("bytes"))), Z()])
     return types, cat
@@ -1304,6 +1345,8 @@ def main():
     ta, cata = catalogue_avro(ga)
     for group, t in ta:
         ga.harness_rt(t, group)
+    for n in ("verifL_Int64", "verifL_Int32", "verifL_Int", "verifO_Int64", "verifP_Int64", "verifS_Int64", "verifM_Int64"):
+        ga.harness_rt(cata[n], "wide", wide=True)
     for wt, tt, group in reader_pairs_avro(ga, cata):
         ga.harness_read(wt, tt, group)
         if natural(wt).has_union() and group in ("same", "indir"):
